@@ -176,6 +176,11 @@ func scenarioCfgMap(t *traceWriter, rng *rand.Rand) {
 			"n+0badc0de+" + base64.StdEncoding.EncodeToString([]byte{1}), ecdsaVKey(rng, "ecdsa-log"),
 			strings.Replace(ecdsaVKey(rng, "ecdsa-bad"), "+", "+f", 1), "bad name+" + strings.SplitN(keyB.vkey, "+", 2)[1]}
 		origins := []string{fmt.Sprintf("cfg.example/%d/a", ci), fmt.Sprintf("cfg.example/%d/b", ci), fmt.Sprintf("cfg.example/%d/c", ci), fmt.Sprintf("Cfg.Example/%d/A", ci)}
+		if ci%3 == 0 {
+			// origins that differ from another one only by surrounding white space (a quoted YAML scalar keeps it; so does
+			// a plain one for U+00A0): every component must take the origin exactly as configured
+			origins = append(origins, fmt.Sprintf("cfg.example/%d/a ", ci), fmt.Sprintf(" cfg.example/%d/b", ci), fmt.Sprintf("cfg.example/%d/c\u00a0", ci), fmt.Sprintf("cfg.example/%d/a\t", ci))
+		}
 		var ents []ent
 		ne := 1 + rng.Intn(4)
 		for i := 0; i < ne; i++ {
